@@ -10,6 +10,7 @@ RULE = (
     "optional tasks in ~30% of tasks x admitted schedules; each judged by the documented relation. Non-trivial = "
     "non-default schedule binding for a task constraint (a +-1/flip neighbour violates it)."
 )
+TECHNIQUE = "Hypothesis-generated constraint parameter grids; admitted schedules (steered / enumerated) judged by the documented relation in a z3-free reference model"
 ASSUMPTIONS = [
     "z3 answers and models trusted",
     "reference relations in vf/ref.py follow docs/task_constraints.md and the class docstrings; zero-length members of contiguity lists and coinciding zero-length tasks under TasksDontOverlap are unspecified",
